@@ -5,23 +5,23 @@ import json, os
 CHECKS = {
  "C01": dict(level="exploration", engine="drv-expr", design="§4 C01",
    technique="bounded-exhaustive term enumeration (T1/T2/T3) x exhaustive/boundary assignments vs reference evaluator",
-   text="Every term of the stated alphabet (all 35 operators, widths 1..8/31..33/63..65/127..129, literal shapes incl. shift amounts >= width and >= 2^32, up to 2-3 nested operators) is simplified by the real code (single expression, dense-cache simplifier, whole-system pass) and compared with the input under every assignment of a stated finite value space; exhaustive within those bounds, nothing sampled. Two-child nestings (concat/slice, arrays: eq/ite/read/store over stores and constant arrays) are part of the T2 space.",
+   text="Every term of the stated alphabet (all 35 operators, widths 1..8/31..33/63..65/127..129, literal shapes incl. shift amounts >= width and >= 2^32, up to 2-3 nested operators) is simplified by the real code (single expression, dense-cache simplifier, whole-system pass) and compared with the input under every assignment of a stated finite value space; exhaustive within those bounds, nothing sampled. Two-child nestings (concat/slice, arrays: eq/ite/read/store over stores and constant arrays) are part of the T2 space. Both operands built by one operator over a common operand (every literal at widths <= 4), three nested slices, and bare leaves as roots of the whole-system pass are part of the space.",
    note="Trusted: pvcore reference evaluator/type checker (num-bigint, self-checked bit-level at start). Values beyond 8 symbol bits come from the boundary alphabet; terms deeper than 3 operators are not explored."),
  "C06": dict(level="exploration", engine="drv-expr", design="§4 C06",
    technique="bounded-exhaustive term enumeration x exhaustive/boundary assignments vs reference evaluator, canonicity and short-circuit checks",
-   text="Every term over the implemented operators (no div/rem) in the stated alphabet is evaluated by eval_expr/eval_bv_expr/eval_array_expr (three value stores, sparse and dense arrays) under every assignment of a stated finite value space and compared with an independent num-bigint SMT-LIB evaluator; result canonicity and inner-node short-circuit are checked on every case. SymbolValueStore histories (define, update in reverse order through update_bv/update_array/update, clear, re-define) are replayed for every assignment; a wrong array equality is attributed to the known baa defect only on evidence (operands evaluated correctly, is_equal called on the two values).",
+   text="Every term over the implemented operators (no div/rem) in the stated alphabet is evaluated by eval_expr/eval_bv_expr/eval_array_expr (three value stores, sparse and dense arrays) under every assignment of a stated finite value space and compared with an independent num-bigint SMT-LIB evaluator; result canonicity and inner-node short-circuit are checked on every case. SymbolValueStore histories (define, update in reverse order through update_bv/update_array/update, clear, re-define) are replayed for every assignment; a wrong array equality is attributed to the known baa defect only on evidence (operands evaluated correctly, is_equal called on the two values). Value lists are also passed reversed and rotated; a store that held a value for an inner node is cleared and refilled with symbols only.",
    note="Trusted: pvcore reference semantics. Values beyond 8 symbol bits come from the boundary alphabet."),
  "C02": dict(level="model_checking", engine="drv-mc", design="§4 C02",
    technique="explicit-state reachability oracle vs the real bmc() run against an enumeration-based reference solver over the real pipe protocol; systems enumerated by deviation-bounded sweeps",
-   text="For every system of the enumerated family (skeletons K1..K7, sweeps S1/S3, +S2 thorough) x solver persona x bad-state mode x simplification x the two boundary bounds around the shortest counterexample, the real bmc() is executed end to end against a reference solver that decides by exhaustive enumeration; the verdict must equal the verdict of an explicit-state breadth-first search of the system's reference semantics. Hand-built corner systems (X-*: same init/next node, next-less systems, constant states with init, init expressions reading inputs, labelled roots, independent parts, input-only bad states, init-sharing, two-digit depths) and dead-end systems run before the interleaved sweeps.",
+   text="For every system of the enumerated family (skeletons K1..K7, sweeps S1/S3, +S2 thorough) x solver persona x bad-state mode x simplification x the two boundary bounds around the shortest counterexample, the real bmc() is executed end to end against a reference solver that decides by exhaustive enumeration; the verdict must equal the verdict of an explicit-state breadth-first search of the system's reference semantics. Hand-built corner systems (X-*: same init/next node, next-less systems, constant states with init, init expressions reading inputs, labelled roots, independent parts, input-only bad states, init-sharing, two-digit depths) and dead-end systems run before the interleaved sweeps. The yices persona is paired with constant-array systems too: an error is tolerated there (missing feature), a verdict is judged.",
    note="Trusted: pvcore::tsref reference semantics, smtref/refsmt reference solver (calibrated against real z3/cvc5). Systems have <= 3 state variables / 10 state bits, bounds <= 6."),
  "C03": dict(level="model_checking", engine="drv-mc", design="§4 C03",
    technique="witness replay through reference semantics for every alternative model of the final query (solver model choice point enumerated exhaustively up to 256 cubes)",
-   text="Every failing session of the C02 family is re-run once per model the reference solver may legally return for the final satisfiable query (all satisfying cubes up to 256, min/max and both don't-care fillings above), plus PDR failures; every witness is replayed through the reference semantics with all shape, init, constraint and failed-set checks of the property. The corner systems of C02 (X-*, incl. roots labelled as the btor2 reader labels them and inputs that reach a constraint only through a register) are part of the family.",
+   text="Every failing session of the C02 family is re-run once per model the reference solver may legally return for the final satisfiable query (all satisfying cubes up to 256, min/max and both don't-care fillings above), plus PDR failures; every witness is replayed through the reference semantics with all shape, init, constraint and failed-set checks of the property. The corner systems of C02 (X-*, incl. roots labelled as the btor2 reader labels them and inputs that reach a constraint only through a register) are part of the family. Array systems are also run with the solver spelling array values as shadowed store chains and in descending store order.",
    note="Trusted: pvcore::tsref, refsmt. Replay is existential for next-less states (a witness has no values for them)."),
  "C04": dict(level="model_checking", engine="drv-mc", design="§4 C04",
    technique="recorded unrolling script checked by a strict SMT-LIB reference front end and evaluated under every concrete execution of the system (explicit-state enumeration of executions)",
-   text="UnrollSmtEncoding is driven directly (init_at(0|1|3) + 0..3 unrolls) with a recording SolverContext; the exact serialized text must be accepted by a strict standard-conforming front end, and for every concrete execution of the system of that length every per-step symbol must evaluate to the reference value of its signal. The corner systems add init expressions reading inputs (s0 = init(i0)), shared init cones, and entries at steps 9/10 with two-digit step numbers.",
+   text="UnrollSmtEncoding is driven directly (init_at(0|1|3) + 0..3 unrolls) with a recording SolverContext; the exact serialized text must be accepted by a strict standard-conforming front end, and for every concrete execution of the system of that length every per-step symbol must evaluate to the reference value of its signal. The corner systems add init expressions reading inputs (s0 = init(i0)), shared init cones, and entries at steps 9/10 with two-digit step numbers. The encoder is also built with include_outputs (aliasing outputs added to every system; an output symbol is compared wherever the encoder has one) and driven through a second session (init_at after an earlier init_at+unroll run of the same object on another solver, overlapping step numbers).",
    note="Trusted: smtref strict front end (SMT-LIB 2.6), pvcore::tsref. At most 4096 executions per (system, entry, depth)."),
  "C10": dict(level="model_checking", engine="drv-mc", design="§4 C10",
    technique="real pdr() against the reference solver; solver answers (models, unsat cores) are numbered choice points explored by policy sweeps and deviation-bounded schedule enumeration; verdict vs explicit-state reachability to a fixpoint",
@@ -37,19 +37,19 @@ CHECKS = {
    note="Trusted: smtref strict front end and evaluator, pvcore reference evaluator."),
  "C14": dict(level="exploration", engine="drv-smt", design="§4 C14",
    technique="bounded-exhaustive enumeration of writer outputs and of grammar-generated model values with all prefix / single-parenthesis mutations, fed end to end through the real solver pipe",
-   text="Every writer output of the C05 space is read back by parse_expr and compared semantically; every command the writer can emit must survive write-read-write; grammar-generated model values (literals, const arrays, store chains, lets) are returned by a scripted reference solver to the real SolverContext::get_value and must be read as the value the strict front end assigns; every proper prefix and single-parenthesis mutation must yield an error or the unchanged value. Added: let scoping under four symbol tables, identifier classes (incl. literal- and keyword-shaped and non-ASCII names) in the round trip, n-ary applications (rejected or read with the reference's value); the intact reply of every model value runs before the mutated replies.",
+   text="Every writer output of the C05 space is read back by parse_expr and compared semantically; every command the writer can emit must survive write-read-write; grammar-generated model values (literals, const arrays, store chains, lets) are returned by a scripted reference solver to the real SolverContext::get_value and must be read as the value the strict front end assigns; every proper prefix and single-parenthesis mutation must yield an error or the unchanged value. Added: let scoping under four symbol tables, identifier classes (incl. literal- and keyword-shaped and non-ASCII names) in the round trip, n-ary applications (rejected or read with the reference's value); the intact reply of every model value runs before the mutated replies. read_command: every legal command stream up to depth 5 (thorough 7) over a scope-stack alphabet (declare / define x at four sorts, use, push, pop; re-declaration after pop) in four layouts through short-read sources must come back command by command.",
    note="Trusted: smtref strict front end. Leniency that still yields the right value is tolerated."),
  "C12": dict(level="model_checking", engine="drv-expr", design="§4 C12",
    technique="explicit-state search over construction histories of a real Context against a shadow map from structural keys to references",
-   text="All sequences of up to 3 (quick) / 4 (thorough) constructor calls over a pool of symbol, literal (by many different computation routes, widths 1..129), operator and string constructors are replayed on a real Context, from empty contexts and from contexts holding 70 000 unrelated insertions; after every call the shadow map checks same key => same reference, different key => different reference, and that every earlier reference still denotes the recorded expression, type and name. Array literals (Context::lit of an array value filled in different orders) must yield one reference.",
+   text="All sequences of up to 3 (quick) / 4 (thorough) constructor calls over a pool of symbol, literal (by many different computation routes, widths 1..129), operator and string constructors are replayed on a real Context, from empty contexts and from contexts holding 70 000 unrelated insertions; after every call the shadow map checks same key => same reference, different key => different reference, and that every earlier reference still denotes the recorded expression, type and name. Array literals (Context::lit of an array value filled in different orders) must yield one reference. The pool holds the nested shapes a no-op elimination would look at (store of a read, read of a store, double application, adjacent slices) and names a normalisation would touch (|a|, blanks, case).",
    note="Trusted: the shadow map's structural key. Histories longer than 4 calls are not explored."),
  "C13": dict(level="model_checking", engine="drv-expr", design="§4 C13",
    technique="term sweep for idempotence/termination plus explicit-state search over orderings of simplify calls on one Simplifier instance (sparse and dense caches)",
-   text="Over the C01 term space every term is simplified twice (idempotence, sparse = dense cache) under a deadline of 100x the slowest normal call (termination); all ordered pairs (thorough: triples) of a pool of sub-term-sharing terms are fed to one Simplifier and each result must be the reference a fresh simplifier returns. Added: child/parent cache-transparency pairs, deep chains (five patterns nested up to 70000 / 300000 times), and a creation-order sweep (every one-operator term simplified alone and in contexts pre-populated with all one-operator terms in both orders).",
+   text="Over the C01 term space every term is simplified twice (idempotence, sparse = dense cache) under a deadline of 100x the slowest normal call (termination); all ordered pairs (thorough: triples) of a pool of sub-term-sharing terms are fed to one Simplifier and each result must be the reference a fresh simplifier returns. Added: child/parent cache-transparency pairs, deep chains (five patterns nested up to 70000 / 300000 times), and a creation-order sweep (every one-operator term simplified alone and in contexts pre-populated with all one-operator terms in both orders). The result caches themselves (SparseExprMap / DenseExprMetaData under Index, IndexMut, get_fixed_point, clone; DenseExprSet / SparseExprSet) are searched breadth-first over their operation histories to a fixpoint of the state graph against a BTreeMap / BTreeSet; long-lived simplifier instances answer every term of a prebuilt context in four call orders (hundreds of calls per cache).",
    note="Termination is observed as return within a deadline, twice. Terms on which the simplifier panics inside baa (C01 findings) are skipped and counted."),
  "C19": dict(level="exploration", engine="drv-misc", design="§4 C19",
    technique="exhaustive enumeration of rule x width/sign instantiations with exhaustive operand evaluation against the reference evaluator; exhaustive round-trip sweep of the convertible fragment",
-   text="Every rule of the shipped rewrite set is instantiated for every assignment of its width variables (operand widths 1..4/5, derived widths up to full precision) and both values of every sign variable; for every instance whose side condition holds both sides are lowered with the crate's own from_arith and compared on ALL operand values; every expression of the convertible fragment with <= 2 operators is converted to the e-graph language and back and compared exhaustively. Round trips include the same base symbol under two different extensions as both operands.",
+   text="Every rule of the shipped rewrite set is instantiated for every assignment of its width variables (operand widths 1..4/5, derived widths up to full precision) and both values of every sign variable; for every instance whose side condition holds both sides are lowered with the crate's own from_arith and compared on ALL operand values; every expression of the convertible fragment with <= 2 operators is converted to the e-graph language and back and compared exhaustively. Round trips include the same base symbol under two different extensions as both operands. Instances at the width boundaries 31..33 / 63..65 of one operand (where wlsh saturates) are included, evaluated over the boundary alphabet.",
    note="Trusted: pvcore reference evaluator. Widths above 5 (operands) are not explored."),
  "C20": dict(level="model_checking", engine="drv-misc", design="§4 C20",
    technique="explicit-state search over operation histories of real ValueSummary objects; invariant (disjoint, exhaustive guards; denotation) evaluated in every state under all 2^7 valuations",
@@ -61,27 +61,27 @@ CHECKS = {
    note="Trusted: reference simulator on pvcore::tsref/evalref. Values of next-less states and random initial values are adopted from the simulator and only their consequences checked."),
  "C11": dict(level="exploration", engine="drv-sys", design="§4 C11",
    technique="bounded-exhaustive system enumeration; every function compared under all valuations; lock-step reference simulation over all short input sequences",
-   text="For every system of the family (S1+S3, +S2 thorough; named intermediate nodes; anonymous-prefixed inputs/states) simplify_expressions and replace_anonymous_inputs_with_zero are applied to a clone; inputs/states lists, every init/next/output/bad/constraint function (all valuations) and all executions up to 3-4 steps must agree with the original (restricted to zero for removed inputs), and removed inputs must not occur anywhere. Init expressions reading (anonymous) inputs, inputs read by init only, and look-alike input names (containing but not starting with the anonymous prefixes) are part of the family.",
+   text="For every system of the family (S1+S3, +S2 thorough; named intermediate nodes; anonymous-prefixed inputs/states) simplify_expressions and replace_anonymous_inputs_with_zero are applied to a clone; inputs/states lists, every init/next/output/bad/constraint function (all valuations) and all executions up to 3-4 steps must agree with the original (restricted to zero for removed inputs), and removed inputs must not occur anywhere. Init expressions reading (anonymous) inputs, inputs read by init only, and look-alike input names (containing but not starting with the anonymous prefixes) are part of the family. Every two-operator term of a small universe is the root of a system of its own (second pass, strided by the seed in quick).",
    note="Trusted: pvcore reference evaluator and TS semantics."),
  "C17": dict(level="model_checking", engine="drv-sys", design="§4 C17",
    technique="every sub-expression as root x three cone variants; tightness against an independent dependency search; sufficiency by exhaustive perturbation of all executions on the reference semantics",
-   text="For every system of the family and every sub-expression as root, each of the three cone functions must return only declared inputs/states, exactly the set an independent dependency-graph search reaches, and changing any symbol outside the cone in any execution (all initial states x all input sequences up to the horizon) must never change the root's value. A watchdog turns a runaway cone call into a violation; hand-built systems include bypass reads (constant-address reads over symbolic-address stores).",
+   text="For every system of the family and every sub-expression as root, each of the three cone functions must return only declared inputs/states, exactly the set an independent dependency-graph search reaches, and changing any symbol outside the cone in any execution (all initial states x all input sequences up to the horizon) must never change the root's value. A watchdog turns a runaway cone call into a violation; hand-built systems include bypass reads (constant-address reads over symbolic-address stores). A system with more than 2^16 registers is checked for membership / tightness only.",
    note="Trusted: pvcore reference semantics; horizon 3 (quick) / 5 (thorough)."),
  "C08": dict(level="exploration", engine="drv-btor", design="§4 C08",
    technique="bounded-exhaustive enumeration of btor2 texts (operator x sorts x operand choice x negation placement x line order) evaluated under all valuations against an independent text-level btor2 interpreter",
-   text="Single- and two-operator files for every supported operator at the stated sorts, all negation placements, constants in all three bases, init/next attachment and all admissible line orders of small files are parsed by the real reader; every output/bad/constraint/init/next is evaluated under all valuations of inputs and states and compared with a reference btor2 interpreter that works on the text only; every variant with one declared sort replaced must be rejected. Operand-id mutants and sort-id mutants (also towards sorts the file does not declare) are classified by the reference reader (well-sorted: compared; ill-sorted: must be rejected, non-marker panics count); 2048 name-collision files check that distinct declarations stay distinct symbols.",
+   text="Single- and two-operator files for every supported operator at the stated sorts, all negation placements, constants in all three bases, init/next attachment and all admissible line orders of small files are parsed by the real reader; every output/bad/constraint/init/next is evaluated under all valuations of inputs and states and compared with a reference btor2 interpreter that works on the text only; every variant with one declared sort replaced must be rejected. Operand-id mutants and sort-id mutants (also towards sorts the file does not declare) are classified by the reference reader (well-sorted: compared; ill-sorted: must be rejected, non-marker panics count); 2048 name-collision files check that distinct declarations stay distinct symbols. Files with two or three constants of one width (same digits in different bases, same line twice) and two-operator chains through a width change (ext of ext, slice of ext, ...) are part of the space.",
    note="Trusted: btorref (text-level btor2 semantics written from the format definition), pvcore reference evaluator."),
  "C09": dict(level="exploration", engine="drv-btor", design="§4 C09",
    technique="bounded-exhaustive system enumeration plus all shipped btor2 files through write/read; positional, structural (DAG isomorphism) and exhaustive semantic comparison",
-   text="Every system of the family (S1+S3, +S2 thorough, enriched with array inits, constant states, anonymous/named signals, aliases, literal shapes) and all shipped btor2 files are written with the real writer and read back; counts, types, and every function must agree (same reference, isomorphic DAG, or equal under all valuations); explicit names must survive a further cycle. Every two-operator term of a small universe is additionally the output/next/bad root of a system of its own.",
+   text="Every system of the family (S1+S3, +S2 thorough, enriched with array inits, constant states, anonymous/named signals, aliases, literal shapes) and all shipped btor2 files are written with the real writer and read back; counts, types, and every function must agree (same reference, isomorphic DAG, or equal under all valuations); explicit names must survive a further cycle. Every two-operator term of a small universe is additionally the output/next/bad root of a system of its own. The generic entry point serialize() writes into sinks that accept 1, 2, 3, 7 or 16 bytes per call (legal short writes): same text.",
    note="A pair that is neither isomorphic nor decidable by enumeration is reported as undecided, never as a violation."),
  "C16": dict(level="exploration", engine="drv-btor", design="§4 C16",
    technique="bounded-exhaustive enumeration of complete witnesses and concatenations through print/parse",
-   text="All complete witnesses over the stated shapes (0-2 states incl. arrays with several recorded indices, 0-2 inputs, 1-3 frames, failed sets, name classes incl. @ and #) and all concatenations of 1-3 of them are printed and parsed back; every field must be equal. Also zero-step witnesses, sparse arrays with index widths 8..128, and large witnesses (12 states, 11 inputs up to 200 bits, 12 frames, property numbers 10/123/2^32-1).",
+   text="All complete witnesses over the stated shapes (0-2 states incl. arrays with several recorded indices, 0-2 inputs, 1-3 frames, failed sets, name classes incl. @ and #) and all concatenations of 1-3 of them are printed and parsed back; every field must be equal. Also zero-step witnesses, sparse arrays with index widths 8..128, and large witnesses (12 states, 11 inputs up to 200 bits, 12 frames, property numbers 10/123/2^32-1). print_witness into short-write sinks and parse_witness from sources that yield 1, 2, 3, 7, 16 bytes at a time must agree with the one-shot result; names that end in a step marker or contain non-separator blanks are in the name alphabet.",
    note="Array contents are compared at every recorded index."),
  "C18": dict(level="exploration", engine="drv-btor", design="§4 C18",
    technique="deviation-bounded mutation enumeration (all single mutations; all pairs in thorough) of a corpus of valid files, run in sandboxed worker processes; accepted results deep-type-checked",
-   text="Every single token/line mutation (hostile token menu, deleted/duplicated/swapped lines, widths 0, reversed slices, huge numbers, unicode) of a corpus of valid btor2 files is fed to the real reader in worker subprocesses with memory and time limits; the outcome must be a clean failure or a system that passes the deep reference type checker; only the documented not-yet-supported markers may panic. When the reference reader rejects a text that the subject accepts, the widths the text declares for the nodes behind its output lines are still compared textually.",
+   text="Every single token/line mutation (hostile token menu, deleted/duplicated/swapped lines, widths 0, reversed slices, huge numbers, unicode) of a corpus of valid btor2 files is fed to the real reader in worker subprocesses with memory and time limits; the outcome must be a clean failure or a system that passes the deep reference type checker; only the documented not-yet-supported markers may panic. When the reference reader rejects a text that the subject accepts, the widths the text declares for the nodes behind its output lines are still compared textually. Line ids declared twice (a state id re-used by a node of another sort, then init / next on it) are a family of their own.",
    note="Texts that declare sorts of 2^24 bits or more are legitimately slow and are counted, not judged, when they exceed the deadline."),
 }
 
